@@ -40,97 +40,163 @@ if __name__ == '__main__':
         print(t, s.get(t))
 
 
+def _split_pattern(line):
+    """pattern (up to the first blank outside quotes / brackets) and the rest of the line"""
+    i, n, q, b = 0, len(line), False, False
+    while i < n:
+        c = line[i]
+        if c == '\\': i += 2; continue
+        if q: q = c != '"'
+        elif b: b = c != ']'
+        elif c == '"': q = True
+        elif c == '[': b = True
+        elif c in ' \t': break
+        i += 1
+    return line[:i], line[i:]
+
+
+def _braces(code):
+    code = re.sub(r'/\*.*?\*/', '', code, flags=re.S)
+    code = re.sub(r'"(?:[^"\\]|\\.)*"', '', code)
+    code = re.sub(r"'(?:[^'\\]|\\.)'", '', code)
+    return code.count('{') - code.count('}')
+
+
+def flex_rules():
+    """every rule of src/lexer.l in file order: (start conditions or None, pattern, action text, definitions).  Understands rules grouped in a
+    <cond>{ ... } block and rules prefixed by <cond>, actions on one line, over several lines, empty, `;` or comment only."""
+    text = open(os.path.join(vlib.REPO, 'src', 'lexer.l')).read()
+    parts = text.split('\n%%\n')
+    if len(parts) < 2:
+        raise RuntimeError('lexer.l: no rules section')
+    head, body = parts[0], parts[1]
+    defs = re.findall(r'^(\w+)\s+(\[\S+)\s*$', head, re.M)
+    xconds = re.findall(r'^%x\s+(\w+)', head, re.M)
+    rules, block, lines = [], None, body.split('\n')
+    k = 0
+    while k < len(lines):
+        line = lines[k]; k += 1
+        st = line.strip()
+        if not st:
+            continue
+        m = re.match(r'^<([\w,*]+)>\{\s*$', line)
+        if block is None and m:
+            block = m.group(1).split(','); continue
+        if block is not None and st == '}':
+            block = None; continue
+        if block is None and line[0] in ' \t':
+            continue                                   # indented code outside a block is copied to the scanner, not a rule
+        if st.startswith('/*') and block is None and line[0] not in '"<[\\({.':
+            while '*/' not in line and k < len(lines):
+                line = lines[k]; k += 1
+            continue
+        conds = block
+        m = re.match(r'^<([\w,*]+)>(.*)$', st)
+        if m:
+            conds, st = m.group(1).split(','), m.group(2)
+        pat, action = _split_pattern(st)
+        depth = _braces(action)
+        while depth > 0 and k < len(lines):
+            action += '\n' + lines[k]; depth += _braces(lines[k]); k += 1
+        rules.append((conds, pat, action.strip()))
+    return dict(rules=rules, defs=defs, xconds=xconds)
+
+
+def _action_class(pat, action):
+    a = re.sub(r'/\*.*?\*/', '', action, flags=re.S).strip()
+    a = re.sub(r'^\{\s*|\s*\}$', '', a).strip()
+    if a in ('', ';'): return 'ASkip'
+    if 'BEGIN(INITIAL)' in a: return 'AEofEnd' if pat == '<<EOF>>' else 'AEnd'
+    if 'BEGIN(' in a: return 'AOther'
+    if 'newline' in a and 'return' not in a: return 'ANewline'
+    if 'handle_expect' in a and 'return' not in a: return 'AExpect'
+    return 'AOther'
+
+
 def startcond_table():
     """flex start conditions of lexer.l: (condition, event) -> condition after the rule's action; events: open '/*', close '*/',
     eof, other.  Written to coq/theories/gen/Gen_StartCond.v; StartCond.v proves what a table with the right EOF rows guarantees."""
-    import vlib
-    text = open(os.path.join(vlib.REPO, 'src', 'lexer.l')).read()
-    rules = text.split('\n%%\n')[1]
-    conds = re.findall(r'^%x\s+(\w+)', text, re.M)
-    if conds != ['comment']:
-        raise RuntimeError('lexer.l declares start conditions %r, the model knows INITIAL and comment' % conds)
-    m = re.search(r'^<comment>\{\n(.*?)^\}', rules, re.S | re.M)
-    if not m:
-        raise RuntimeError('lexer.l has no <comment>{ } block')
-    inside, outside = m.group(1), rules[:m.start()] + rules[m.end():]
-    def target(block, pat, default):
-        mm = re.search(r'^\s*' + pat + r'\s+(\{.*?\}|[^\n]*)$', block, re.M)
-        if not mm:
+    F = flex_rules()
+    if F['xconds'] != ['comment']:
+        raise RuntimeError('lexer.l declares start conditions %r, the model knows INITIAL and comment' % F['xconds'])
+    def active(conds, c):
+        return (conds is None and c == 'INITIAL') or (conds is not None and (c in conds or '*' in conds))
+    def target(c, pat, default):
+        hits = [a for conds, p, a in F['rules'] if active(conds, c) and p == pat]
+        if not hits:
             return default
-        b = re.findall(r'BEGIN\((\w+)\)', mm.group(1))
+        b = re.findall(r'BEGIN\((\w+)\)', hits[0])
         if len(b) > 1:
             raise RuntimeError('rule %s has several BEGINs' % pat)
         return b[0] if b else default
-    tbl = {('comment', 'close'): target(inside, r'"\*/"', 'comment'), ('comment', 'eof'): target(inside, r'<<EOF>>', 'comment'), ('comment', 'open'): target(inside, r'"/\*"', 'comment'),
-           ('INITIAL', 'open'): target(outside, r'"/\*"', 'INITIAL'), ('INITIAL', 'eof'): target(outside, r'<<EOF>>', 'INITIAL'), ('INITIAL', 'close'): target(outside, r'"\*/"', 'INITIAL')}
-    others = [b for b in re.findall(r'BEGIN\((\w+)\)', rules)]
-    if len(others) != sum(1 for k, v in tbl.items() if v != k[0]):
-        raise RuntimeError('lexer.l has BEGIN actions outside the open / close / eof rules the model knows: %r' % others)
+    tbl = {}
+    for c in ('comment', 'INITIAL'):
+        for ev, pat in (('open', '"/*"'), ('close', '"*/"'), ('eof', '<<EOF>>')):
+            tbl[(c, ev)] = target(c, pat, c)
+    nbegin = sum(len(re.findall(r'BEGIN\((\w+)\)', a)) for _, _, a in F['rules'])
+    if nbegin != sum(1 for k, v in tbl.items() if v != k[0]):
+        raise RuntimeError('lexer.l has BEGIN actions outside the open / close / eof rules the model knows')
     C = lambda c: 'INITIAL' if c == 'INITIAL' else 'COMMENT'
     out = ['(* generated by tools/gen_lex.py from src/lexer.l — do not edit *)', 'From Utap Require Import StartCond.', 'Definition gen_sc (c : cond) (e : ev) : cond :=', '  match c, e with']
     for (c, e), v in sorted(tbl.items()):
         out.append('  | %s, %s => %s' % (C(c), {'open': 'OpenC', 'close': 'CloseC', 'eof': 'Eof'}[e], C(v)))
     out.append('  | c, Other => c\n  end.')
-    path = os.path.join(vlib.COQ, 'theories', 'gen', 'Gen_StartCond.v')
-    txt = '\n'.join(out) + '\n'
-    if not os.path.exists(path) or open(path).read() != txt:
-        open(path, 'w').write(txt)
+    _write('Gen_StartCond.v', '\n'.join(out) + '\n')
     return tbl
 
 
-def comment_rules():
-    """the rules flex applies inside a block comment, as (pattern text, action class), in file order; written to gen/Gen_CommentRules.v.
-    CommentLex.v models a scanner with the five reference rules; Properties_C09 proves the regenerated list is that list."""
-    text = open(os.path.join(vlib.REPO, 'src', 'lexer.l')).read()
-    rules = text.split('\n%%\n')[1]
-    m = re.search(r'^<comment>\{\n(.*?)^\}', rules, re.S | re.M)
-    if not m:
-        raise RuntimeError('lexer.l has no <comment>{ } block')
-    out = []
-    def classify(pat, action):
-        a = re.sub(r'/\*.*?\*/', '', action, flags=re.S).strip()
-        if a in ('', '{}', '{ }', ';'): return 'ASkip'
-        if 'BEGIN(INITIAL)' in a: return 'AEofEnd' if pat == '<<EOF>>' else 'AEnd'
-        if 'BEGIN(' in a: return 'AOther'
-        if 'newline' in a and 'return' not in a: return 'ANewline'
-        if 'handle_expect' in a and 'return' not in a: return 'AExpect'
-        return 'AOther'
-    def split_rule(line):
-        i, n, q, b = 0, len(line), False, False
-        while i < n:
-            c = line[i]
-            if c == '\\': i += 2; continue
-            if q: q = c != '"'
-            elif b: b = c != ']'
-            elif c == '"': q = True
-            elif c == '[': b = True
-            elif c in ' \t': break
-            i += 1
-        return line[:i], line[i:].strip()
-    block = m.group(1)
-    # join continuation lines of multi-line actions: a rule starts at a line whose action braces are balanced at its end
-    cur = ''
-    for line in block.split('\n'):
-        if not line.strip():
-            continue
-        cur = (cur + '\n' + line) if cur else line
-        if cur.count('{') - cur.count('}') - (cur.count("'{'") - cur.count("'}'")) <= 0 or not cur.strip().startswith(cur.strip()[0]):
-            pat, action = split_rule(cur.strip())
-            out.append((pat, classify(pat, action)))
-            cur = ''
-    if cur:
-        pat, action = split_rule(cur.strip()); out.append((pat, classify(pat, action)))
-    # rules outside the block that are also active inside comments
-    rest = rules[:m.start()] + rules[m.end():]
-    for mm in re.finditer(r'^<([^>\n]*)>(\S+)', rest, re.M):
-        conds = [c.strip() for c in mm.group(1).split(',')]
-        if 'comment' in conds or '*' in conds:
-            out.append((mm.group(2), 'AOther'))
-    cq = lambda t: '"' + t.replace('"', '""') + '"'
-    lines = ['(* generated by tools/gen_lex.py from the <comment> rules of src/lexer.l — do not edit *)', 'From Coq Require Import List String.', 'From Utap Require Import CommentLex.', 'Import ListNotations.',
-             'Local Open Scope string_scope.', 'Definition gen_comment_rules : list crule :=', '  [' + ';\n   '.join('CR %s %s' % (cq(p), a) for p, a in out) + '].']
-    path = os.path.join(vlib.COQ, 'theories', 'gen', 'Gen_CommentRules.v')
-    txt = '\n'.join(lines) + '\n'
+def _write(name, txt):
+    path = os.path.join(vlib.COQ, 'theories', 'gen', name)
     if not os.path.exists(path) or open(path).read() != txt:
         open(path, 'w').write(txt)
+
+
+def _cq(t):
+    return '"' + t.replace('"', '""') + '"'
+
+
+def comment_rules():
+    """the rules flex applies inside a block comment, as (pattern text, action class), sorted by pattern (no two of the modelled rules can match
+    the same length at the same place, so their order in the file does not matter; a rule that is added shows up whatever its place);
+    written to gen/Gen_CommentRules.v.  CommentLex.v models a scanner with the five reference rules."""
+    F = flex_rules()
+    out = sorted((p, _action_class(p, a)) for conds, p, a in F['rules'] if conds is not None and ('comment' in conds or '*' in conds))
+    lines = ['(* generated by tools/gen_lex.py from the <comment> rules of src/lexer.l — do not edit *)', 'From Coq Require Import List String.', 'From Utap Require Import CommentLex.', 'Import ListNotations.',
+             'Local Open Scope string_scope.', 'Definition gen_comment_rules : list crule :=', '  [' + ';\n   '.join('CR %s %s' % (_cq(p), a) for p, a in out) + '].']
+    _write('Gen_CommentRules.v', '\n'.join(lines) + '\n')
     return out
+
+
+def lex_rules():
+    """the INITIAL-condition rules of lexer.l for coq/theories/LexModel.v: the literal rules (text, token) in file order, the patterns of all
+    other rules (sorted: the only ties between them and the literals are decided by the three order flags), the definitions, and the flags:
+    every literal before the identifier rule, every literal before the catch-all dot, {num} before the floating-point rule"""
+    F = flex_rules()
+    lits, others, pos = [], [], {}
+    for idx, (conds, pat, action) in enumerate(F['rules']):
+        if conds is not None and 'INITIAL' not in conds and '*' not in conds:
+            continue
+        lm = re.match(r'^"((?:[^"\\]|\\.)+)"$', pat)
+        if lm and pat != '"/*"':
+            t = re.sub(r'\\(.)', lambda mm: {'n': '\n', 't': '\t'}.get(mm.group(1), mm.group(1)), lm.group(1))
+            rm = re.match(r'^\{\s*return\s+(\'(?:[^\'\\]|\\.)\'|[A-Za-z_0-9]+)\s*;\s*\}$', action)
+            if rm:
+                lits.append((t, rm.group(1), idx))
+            elif t in ('=<', '=>') and 'syntax_t::OLD' in action and 'T_ERROR' in action and ('T_LEQ' if t == '=<' else 'T_GEQ') in action:
+                lits.append((t, {'=<': 'T_LEQ|OLD', '=>': 'T_GEQ|OLD'}[t], idx))
+            else:
+                lits.append((t, 'ACTION:' + re.sub(r'\s+', ' ', action)[:60], idx))
+            continue
+        others.append(pat); pos[pat] = idx
+    last_lit = max(i for _, _, i in lits)
+    flag = lambda pat: 'true' if pat in pos and last_lit < pos[pat] else 'false'
+    num_first = 'true' if '{num}' in pos and '{num}("."{num})?([eE]("+"|"-")?{num})?' in pos and pos['{num}'] < pos['{num}("."{num})?([eE]("+"|"-")?{num})?'] else 'false'
+    out = ['(* generated by tools/gen_lex.py from src/lexer.l — do not edit *)', 'From Coq Require Import List String.', 'Import ListNotations.', 'Local Open Scope string_scope.',
+           'Definition gen_literals : list (string * string) :=', '  [' + ';\n   '.join('(%s, %s)' % (_cq(t), _cq(k)) for t, k, _ in lits) + '].',
+           'Definition gen_other_rules : list string :=', '  [' + ';\n   '.join(_cq(p) for p in sorted(others)) + '].',
+           'Definition gen_defs : list (string * string) :=', '  [' + '; '.join('(%s, %s)' % (_cq(a), _cq(b)) for a, b in sorted(F['defs'])) + '].',
+           'Definition gen_literals_before_identifier : bool := %s.' % flag('{alpha}{idchr}*'),
+           'Definition gen_literals_before_dot : bool := %s.' % flag('.'),
+           'Definition gen_num_before_float : bool := %s.' % num_first]
+    _write('Gen_LexRules.v', '\n'.join(out) + '\n')
+    return dict(literals=[(t, k) for t, k, _ in lits], others=sorted(others), defs=sorted(F['defs']))
